@@ -295,12 +295,18 @@ func c19RunScenario(sc c19Scenario) c19ChildOut {
 		phase.Store("workers-stopped")
 		t1 := time.Now()
 		left := c19PoolGoroutines()
-		for left > 0 && time.Since(t1) < c19Slack {
+		gslack := c19Slack
+		mu.Lock()
+		if len(out.Fails) > 0 { // already a violation: do not spend the full slack on this one
+			gslack = 300 * time.Millisecond
+		}
+		mu.Unlock()
+		for left > 0 && time.Since(t1) < gslack {
 			time.Sleep(time.Millisecond)
 			left = c19PoolGoroutines()
 		}
 		if left > 0 {
-			fail("C19/hang/worker-not-stopped", fmt.Sprintf("%d goroutine(s) of the pool (workers / dispatcher) still exist %v after Release returned (W=%d Q=%d mode=%s)", left, c19Slack, sc.W, sc.Q, sc.Mode))
+			fail("C19/hang/worker-not-stopped", fmt.Sprintf("%d goroutine(s) of the pool (workers / dispatcher) still exist %v after Release returned (W=%d Q=%d mode=%s)", left, gslack, sc.W, sc.Q, sc.Mode))
 		}
 		// anything that starts after Release returned shows up behind release-return in the trace
 		phase.Store("settle")
